@@ -89,7 +89,7 @@ class Covariance:
 
     def bound(self, tier):
         return ('signal corpus x both centrings x both burst methods; amplitude factors 2^k, k in {-20,-3,1,7,20}; '
-                '(fs, f_range) factors 2^k, k in {-3,-1,1,4}; exact comparison of the tables').replace('{-20,-3,1,7,20}', '{-40,-30,-20,-3,1,7,20,40}')
+                'base fs 512, 500 or 31.96875 with the band at the same ratio; (fs, f_range) by every factor 2^k, k in {-4,-3,-1,1,4} ({1,2,4} for the smallest base; 31.25 and 62.5 Hz are non-integer rates; below about 20 Hz neurodsp\'s transition-band diagnostic rejects the filter, a dependency limit outside the property\'s reach); exact comparison of the tables').replace('{-20,-3,1,7,20}', '{-40,-30,-20,-3,1,7,20,40}')
 
     def gen(self, tier, seed):
         rng = random.Random(seed + 7)
@@ -97,7 +97,7 @@ class Covariance:
             if c['fek'] == 'nsec':
                 c = dict(c, fek='ncyc5')      # the statement fixes the filter length in cycles
             for centre in ('peak', 'trough'):
-                yield dict(c, centre=centre, ka=rng.choice([-40, -30, -20, -3, 1, 7, 20, 40]), kf=rng.choice([-3, -1, 1, 4]))
+                yield dict(c, centre=centre, ka=rng.choice([-40, -30, -20, -3, 1, 7, 20, 40]), kf='all', base=rng.choice([512.0, 500.0, 1023 / 32.]))
 
     def nontrivial(self, c):
         return True
@@ -105,7 +105,8 @@ class Covariance:
     def run(self, c):
         from bycycle.features import compute_features
         sig = make_signal(c['family'], c['seed'])
-        fs, fr = 512.0, (8.0, 12.0)          # powers of two / dyadic so that the scalings are exact in floating point
+        fs = c.get('base', 512.0)            # powers of two / dyadic so that the scalings are exact in floating point
+        fr = (8.0 * fs / 512.0, 12.0 * fs / 512.0)
         base = compute_features(sig, fs, fr, **opts(c, c['centre']))
         a = 2.0 ** c['ka']
         if c['method'] == 'cycles' or True:
@@ -116,14 +117,15 @@ class Covariance:
                 want = base[col].values * a if col in VOLT else base[col].values
                 if not O.same_array(scaled[col].values, want, 0.0 if col not in VOLT else 1e-12):
                     return 'amplitude x%g: column %s %s, expected %s' % (a, col, scaled[col].values[:5], np.asarray(want)[:5])
-        f = 2.0 ** c['kf']
-        o = opts(c, c['centre'])
-        if o['burst_kwargs'] and 'min_burst_duration' in o['burst_kwargs']:
-            o['burst_kwargs']['min_burst_duration'] = o['burst_kwargs']['min_burst_duration'] / f
-        re = compute_features(sig, fs * f, (fr[0] * f, fr[1] * f), **o)
-        d = O.frames_identical(re, base)
-        if d:
-            return 'fs and band x%g: %s' % (f, d)
+        for kf in (([-4, -3, -1, 1, 4] if fs > 100 else [1, 2, 4]) if c['kf'] == 'all' else [c['kf']]):
+            f = 2.0 ** kf
+            o = opts(c, c['centre'])
+            if o['burst_kwargs'] and 'min_burst_duration' in o['burst_kwargs']:
+                o['burst_kwargs']['min_burst_duration'] = o['burst_kwargs']['min_burst_duration'] / f
+            re = compute_features(sig, fs * f, (fr[0] * f, fr[1] * f), **o)
+            d = O.frames_identical(re, base)
+            if d:
+                return 'fs and band x%g (fs %g -> %g): %s' % (f, fs, fs * f, d)
         return None
 
 
